@@ -1,5 +1,5 @@
 import LaunchpadModel.Lemmas.WhitelistFullMembers4
-import LaunchpadModel.Lemmas.WhitelistFullSchedule
+import LaunchpadModel.Lemmas.WhitelistFullStages
 import LaunchpadModel.Props.C11
 import LaunchpadModel.Props.C12
 /-!
@@ -48,41 +48,6 @@ theorem wl_step_refused (P : WlMembers.WL) (t : WlMembers.Tip) : WlMembers.step 
 theorem fund_bal_other (b : Bank) (a x : Addr) (c : Coin) (d : Denom) (h : a ≠ x) : (b.fund a c).bal x d = b.bal x d := by
   have : ¬ x = a := fun e => h e.symm
   simp [MintPay.Bank.fund, MintPay.Bank.credit, this]
-
-theorem instantiateWl_v {v : Variant} {now : Nat} {sender self : Addr} {funds : List Coin} {m : InstMsg} {w : Wl}
-    {msgs : List Msg} (h : instantiateWl v now sender self funds m = .ok (w, msgs)) : w.v = v ∧ w.self = self := by
-  unfold instantiateWl at h
-  split at h
-  · obtain ⟨_, _, _, _, _, _, ht⟩ := instListKind_ok h
-    by_cases hv : v.tiered = true
-    · simp only [hv, if_true] at ht; obtain ⟨_, _, _, _, rfl⟩ := ht; exact ⟨rfl, rfl⟩
-    · simp only [hv, if_false, Bool.false_eq_true] at ht; obtain ⟨_, _, _, _, rfl⟩ := ht; exact ⟨rfl, rfl⟩
-  · unfold instMerkle at h
-    by_cases ht : v.tiered = true
-    · simp only [ht, if_true, Bool.not_true, Bool.false_eq_true, Bool.false_and, if_false] at h
-      split at h; · cases h
-      split at h; · cases h
-      split at h; · cases h
-      split at h; · cases h
-      split at h; · cases h
-      split at h; · cases h
-      split at h; · cases h
-      simp only [Except.ok.injEq, Prod.mk.injEq] at h; obtain ⟨rfl, _⟩ := h; exact ⟨rfl, rfl⟩
-    · simp only [ht, if_false, Bool.false_eq_true] at h
-      split at h; · cases h
-      split at h; · cases h
-      split at h; · cases h
-      split at h; · cases h
-      split at h; · cases h
-      split at h; · cases h
-      split at h; · cases h
-      split at h; · cases h
-      simp only [Except.ok.injEq, Prod.mk.injEq] at h; obtain ⟨rfl, _⟩ := h; exact ⟨rfl, rfl⟩
-  · unfold instImmutable at h
-    split at h; · cases h
-    simp only [] at h
-    split at h; · cases h
-    simp only [Except.ok.injEq, Prod.mk.injEq] at h; obtain ⟨rfl, _⟩ := h; exact ⟨rfl, rfl⟩
 
 /-- **one-step simulation** (every state with an observed list / immutable contract, every op but `instantiate`):
 `proj (Composite.step' s op) = Aspect.step (proj s) (tr s op)` -/
@@ -496,39 +461,6 @@ theorem C11_full_holds_nothing_partial (d : Denom) {s : State} (hr : Reach11 d s
 
 namespace WF
 
-/-- what every op but `instantiate` does to the observed contract: it stays the same contract (address, crate) -/
-theorem step'_wl (s : State) (op : Op) (hni : ∀ v sender funds self m, op ≠ .instantiate v sender funds self m) :
-    (s.wl = none → (step' s op).wl = none) ∧
-    (∀ w, s.wl = some w → ∃ w', (step' s op).wl = some w' ∧ w'.v = w.v ∧ w'.self = w.self) := by
-  rcases step'_cases s op with ⟨s', hok, hs'⟩ | ⟨_, hs'⟩
-  · rw [hs']
-    cases op with
-    | setTime t => simp only [step, Except.ok.injEq] at hok; subst hok; exact ⟨fun h => h, fun w h => ⟨w, h, rfl, rfl⟩⟩
-    | fund a c => simp only [step, Except.ok.injEq] at hok; subst hok; exact ⟨fun h => h, fun w h => ⟨w, h, rfl, rfl⟩⟩
-    | instantiate v sender funds self m => exact absurd rfl (hni v sender funds self m)
-    | exec sender funds m =>
-      simp only [step] at hok
-      obtain ⟨w0, b1, w1, msgs, b2, hw0, _, hh, _, rfl⟩ := execute_ok hok
-      refine ⟨fun h => (by rw [h] at hw0; cases hw0), fun w h => ?_⟩
-      rw [hw0] at h; cases h
-      exact ⟨w1, rfl, (handle_frame hh).2.1, (handle_frame hh).1⟩
-  · rw [hs']; exact ⟨fun h => h, fun w h => ⟨w, h, rfl, rfl⟩⟩
-
-theorem step'_now (s : State) (op : Op) : (step' s op).now = (match op with | .setTime t => t | _ => s.now) := by
-  rcases step'_cases s op with ⟨s', hok, hs'⟩ | ⟨_, hs'⟩
-  · rw [hs']
-    cases op with
-    | setTime t => simp only [step, Except.ok.injEq] at hok; subst hok; rfl
-    | fund a c => simp only [step, Except.ok.injEq] at hok; subst hok; rfl
-    | instantiate v sender funds self m =>
-      simp only [step] at hok; obtain ⟨_, _, _, _, _, _, _, rfl⟩ := instantiateTx_ok hok; rfl
-    | exec sender funds m =>
-      simp only [step] at hok; obtain ⟨_, _, _, _, _, _, _, _, _, rfl⟩ := execute_ok hok; rfl
-  · rw [hs']
-    cases op with
-    | setTime t => rename_i h; obtain ⟨e, he⟩ := h; simp [step] at he
-    | _ => rfl
-
 /-- the C12 invariant of every observed single-stage contract: `genesis ≤ start ≤ end` -/
 def Inv12 (s : State) : Prop := ∀ w, s.wl = some w → Flat w.v → WlSInv (proj12 s.now w)
 
@@ -709,5 +641,6 @@ theorem C12_full_flags {w : Wl} (hf : Flat w.v) (now : Nat) :
     simp only [qConfig, him, ht, Bool.false_eq_true, if_false, Option.some.injEq] at hc
     subst hc
     simp only [qIsActive, him, ht, Bool.false_eq_true, if_false]
+
 
 end LP
